@@ -236,11 +236,49 @@ fn scenario<S: MdkStorageProvider>(col: &mut Col, rng: &mut Rng, backend: &str, 
         col.process(name, &c, ev);
     }
 
+    race_scenario(col, mk);
     let _ = col.call("leave_group", || b.leave_group(&g));
     collect_secrets(col, "a", &a, &g);
     collect_secrets(col, "b", &b, &g);
     collect_secrets(col, "c", &c, &g);
     let _ = backend;
+}
+
+/// A commit race with a retry on a fresh, fully synchronised group: c applies the losing commit (a's, later timestamp),
+/// cannot read a message of the winning branch (failure recorded), then receives the winning commit (b's, earlier
+/// timestamp), rolls back, and is offered the message again - the Retryable path of the dedup step runs here.
+fn race_scenario<S: MdkStorageProvider>(col: &mut Col, mk: &dyn Fn(&str) -> MDK<S>) {
+    let (a, b, c) = (mk("ra"), mk("rb"), mk("rc"));
+    let (ak, bk, ck) = (Keys::generate(), Keys::generate(), Keys::generate());
+    let cfg = NostrGroupConfigData::new("r".into(), "d".into(), None, None, None, vec![RelayUrl::parse("wss://test.relay").unwrap()], vec![ak.public_key(), bk.public_key()]);
+    let (Some(kb), Some(kc)) = (kp(col, &b, &bk), kp(col, &c, &ck)) else { return };
+    let Some(r) = col.call("race: create_group", || a.create_group(&ak.public_key(), vec![kb, kc], cfg)) else { return };
+    let g = r.group.mls_group_id.clone();
+    col.sens("mls-group-id(race)", g.as_slice());
+    col.sens("nostr-group-id(race)", &r.group.nostr_group_id);
+    let _ = col.call("race: merge", || a.merge_pending_commit(&g));
+    for (m, i) in [(&b, 0usize), (&c, 1usize)] {
+        if let Some(w) = col.call("race: process_welcome", || m.process_welcome(&EventId::all_zeros(), &r.welcome_rumors[i])) { let _ = col.call("race: accept", || m.accept_welcome(&w)); }
+    }
+    let now = nostr::Timestamp::now().as_secs();
+    mdk_core::verif_hooks::set_wrapper_created_at(Some(now - 900));
+    let ra = col.call("race: self_update(a)", || a.self_update(&g));
+    mdk_core::verif_hooks::set_wrapper_created_at(Some(now - 1000));
+    let rb = col.call("race: self_update(b)", || b.self_update(&g));
+    mdk_core::verif_hooks::set_wrapper_created_at(None);
+    if let (Some(ra), Some(rb)) = (ra, rb) {
+        col.process("race: c applies the loser", &c, &ra.evolution_event);
+        let _ = col.call("race: b merges its own", || b.merge_pending_commit(&g));
+        if let Some(mb) = col.call("race: create_message(b)", || b.create_message(&g, rumor(&bk, "on the winning branch"))) {
+            col.process("race: c cannot read the winning branch yet", &c, &mb);
+            col.process("race: c receives the winner and rolls back", &c, &rb.evolution_event);
+            col.process("race: c is offered the message again (retry)", &c, &mb);
+            col.process("race: a receives the winner", &a, &rb.evolution_event);
+            col.process("race: a reads the message", &a, &mb);
+        }
+        collect_secrets(col, "c(after race)", &c, &g);
+        collect_secrets(col, "a(after race)", &a, &g);
+    }
 }
 
 fn norm_file(f: &str) -> String {
@@ -350,6 +388,9 @@ fn main() {
                             replay_of(&format!("SITE {}:{}", key.0, key.1)));
         }
     }
+    // what was evaluated: one case per distinct log site reached and per API result / error text scanned
+    for (f, l) in &seen_sites { run.case("log-site-scanned", true, format!("SITE {f}:{l}"), "scanned".into()); }
+    for (i, (wh, _)) in col.texts.iter().enumerate() { run.case("text-scanned", wh.starts_with("err:"), format!("TEXT {i} {wh}"), "scanned".into()); }
     let by_level = |lv: &str| records.iter().filter(|r| r.level == lv).count() as u64;
     for lv in ["TRACE", "DEBUG", "INFO", "WARN", "ERROR"] { *run.dist.entry(format!("records:{lv}")).or_insert(0) += by_level(lv); }
     *run.dist.entry("api_calls".into()).or_insert(0) += col.calls;
